@@ -504,7 +504,8 @@ pub fn run(which: Which, tier: &str, seed: u64, out: &str) {
                 .set("of_which_in_check", tq.3)
                 .set("moves_in_checked_lists", tq.1)
                 .set("node_cap_per_start_state", tq.4)
-                .set("explanation", "from every state within the listed plies of the roots the real search_until_quiet runs (full window, node-capped) with the trace hook on; at every node it reaches, the move list it is about to iterate must equal every legal move (in check) or the tactical set (not in check), and its own in-check flag must agree with the rules"),
+                .set("nodes_whose_searched_moves_were_judged", EXAMINED_NODES.load(std::sync::atomic::Ordering::Relaxed))
+                .set("explanation", "from every state within the listed plies of the roots the real search_until_quiet runs (full window, node-capped) with the trace hook on; at every node it reaches, the move list it is about to iterate must equal every legal move (in check) or the tactical set (not in check), and its own in-check flag must agree with the rules; the examine/exit events say which of those moves the node really searched: all of them if it ran to the end of its loop, a subset if it was cut off (beta, clock), none if it stood pat or was mated"),
         );
     }
 
@@ -607,6 +608,7 @@ fn trace_part(mg: &MoveGenerator, rep: &Report, roots: &[roots::Root], thorough:
     let nodes = AtomicU64::new(0);
     let moves = AtomicU64::new(0);
     let checks = AtomicU64::new(0);
+    let exam_nodes = AtomicU64::new(0);
     crate::par::par_map_init(
         &starts,
         || None::<Searcher>,
@@ -621,7 +623,22 @@ fn trace_part(mg: &MoveGenerator, rep: &Report, roots: &[roots::Root], thorough:
             crate::search::verif::set_quiescence_trace(true);
             let r = guard(|| s.as_mut().unwrap().verif_quiesce(b, Some(Duration::from_millis(cap))));
             let trace = crate::search::verif::take_quiescence_trace();
+            let events = crate::search::verif::take_quiescence_events();
             crate::search::verif::set_quiescence_trace(false);
+            if r.is_ok() {
+                // which moves each node really searched (the list above is what it chose)
+                let (judged, problems) = examined_problems(&trace, &events);
+                exam_nodes.fetch_add(judged, Ordering::Relaxed);
+                if let Some((i, text)) = problems.into_iter().next() {
+                    let nf = eng::fen_of(&trace[i].0);
+                    rep.violation(
+                        format!("C17 start={} node={} examined", eng::fen_of(b), nf),
+                        format!("quiescence search from {:?}, node {:?}: {}", eng::fen_of(b), nf, text),
+                        vec!["c17-exam-one".to_string(), "--fen".into(), eng::fen_of(b), "--node".into(), nf, "--cap".into(), cap.to_string()],
+                        J::Null,
+                    );
+                }
+            }
             if r.is_err() {
                 *s = None;
                 rep.violation(format!("C17 fen={} panic=quiescence", eng::fen_of(b)), format!("quiescence search from {:?}: {}", eng::fen_of(b), r.err().unwrap()), vec![], J::Null);
@@ -673,7 +690,102 @@ fn trace_part(mg: &MoveGenerator, rep: &Report, roots: &[roots::Root], thorough:
             }
         },
     );
+    EXAMINED_NODES.store(exam_nodes.load(Ordering::Relaxed), Ordering::Relaxed);
     (nodes.load(Ordering::Relaxed), moves.load(Ordering::Relaxed), starts.len() as u64, checks.load(Ordering::Relaxed), cap)
+}
+
+/// Nodes whose examined-move events were judged in the last trace_part run
+pub static EXAMINED_NODES: std::sync::atomic::AtomicU64 = std::sync::atomic::AtomicU64::new(0);
+
+/// Pairs the event stream with the node trace (one Q_ENTER per node, nested like the recursion)
+/// and judges every node that has a complete record: a node that ran to the end of its loop must
+/// have searched every move of its list; a node that left early (cut-off, clock) a subset; a
+/// node that stood pat or was mated none. Returns (nodes judged, problems as (node index, text)).
+/// An inconsistent stream (hooks moved or removed by a change) is not judged.
+pub fn examined_problems(trace: &[(Board, bool, Vec<crate::moves::Move>)], events: &[(u8, Option<crate::moves::Move>)]) -> (u64, Vec<(usize, String)>) {
+    use crate::search::verif::{Q_ENTER, Q_EXAMINE, Q_EXIT_COMPLETE, Q_EXIT_CUTOFF, Q_EXIT_MATED, Q_EXIT_STAND_PAT, Q_EXIT_STOPPED};
+    let mut problems = Vec::new();
+    let mut judged = 0u64;
+    let mut stack: Vec<(usize, Vec<Mv>)> = Vec::new();
+    let mut next = 0usize;
+    for (kind, mv) in events {
+        if *kind == Q_ENTER {
+            if next >= trace.len() {
+                return (0, vec![]);
+            }
+            stack.push((next, Vec::new()));
+            next += 1;
+        } else if *kind == Q_EXAMINE {
+            match (stack.last_mut(), mv) {
+                (Some(top), Some(m)) => top.1.push(eng::mv_of(m)),
+                _ => return (0, vec![]),
+            }
+        } else {
+            let (i, mut examined) = match stack.pop() {
+                Some(x) => x,
+                None => return (0, vec![]),
+            };
+            let mut list: Vec<Mv> = trace[i].2.iter().map(eng::mv_of).collect();
+            list.sort();
+            list.dedup();
+            examined.sort();
+            let dup = {
+                let mut d = examined.clone();
+                d.dedup();
+                d.len() != examined.len()
+            };
+            let outside: Vec<Mv> = examined.iter().filter(|m| !list.contains(m)).cloned().collect();
+            judged += 1;
+            let text = if *kind == Q_EXIT_COMPLETE {
+                let skipped: Vec<Mv> = list.iter().filter(|m| !examined.contains(m)).cloned().collect();
+                if !skipped.is_empty() || !outside.is_empty() || dup {
+                    Some(format!("the node ran through its whole move loop but searched [{}] of its list [{}]: never searched [{}], searched outside the list [{}]{}", eng::moves_text(&examined), eng::moves_text(&list), eng::moves_text(&skipped), eng::moves_text(&outside), if dup { ", some move twice" } else { "" }))
+                } else {
+                    None
+                }
+            } else if *kind == Q_EXIT_CUTOFF || *kind == Q_EXIT_STOPPED {
+                if !outside.is_empty() || dup {
+                    Some(format!("the node searched [{}], not all from its list [{}]", eng::moves_text(&examined), eng::moves_text(&list)))
+                } else {
+                    None
+                }
+            } else if *kind == Q_EXIT_STAND_PAT || *kind == Q_EXIT_MATED {
+                if !examined.is_empty() {
+                    Some("the node reports a stand-pat / mate exit after searching moves".to_string())
+                } else {
+                    None
+                }
+            } else {
+                return (0, vec![]);
+            };
+            if let Some(t) = text {
+                problems.push((i, t));
+            }
+        }
+    }
+    (judged, problems)
+}
+
+pub fn replay_exam_one(start_fen: &str, node_fen: &str, cap: u64) -> i32 {
+    use crate::search::Searcher;
+    let p = Pos::from_fen(start_fen).unwrap();
+    let b = eng::board_of(&p).unwrap();
+    crate::timer::verif::set_node_clock(Some(1));
+    crate::search::verif::set_quiescence_trace(true);
+    let mut s = Searcher::new();
+    let _ = guard(|| s.verif_quiesce(&b, Some(std::time::Duration::from_millis(cap))));
+    let trace = crate::search::verif::take_quiescence_trace();
+    let events = crate::search::verif::take_quiescence_events();
+    crate::search::verif::set_quiescence_trace(false);
+    let (_, problems) = examined_problems(&trace, &events);
+    for (i, text) in problems {
+        if eng::fen_of(&trace[i].0) == node_fen {
+            println!("REPLAY-VIOLATION C17 start={} node={} examined :: {}", start_fen, node_fen, text);
+            return 1;
+        }
+    }
+    println!("REPLAY-OK C17 examined moves from {}", start_fen);
+    0
 }
 
 /// Replay of one traced quiescence node: runs the real quiescence search from the FEN and
